@@ -82,6 +82,21 @@ GROUPS2 = {
               {'mc_state_hash': ('mh', BY), 'state_hash': ('sh', BY)}, ['mh', 'sh'], ret='Bool',
               ref='decide (mh ≠ sh)', grid={'mh': HASHES, 'sh': HASHES}),
         ]),
+    # ------------------------------------------------------------------ C13
+    'AddrTags': dict(
+        src='pytoniq_core/boc/address.py', imports=[], ref_imports=[],
+        targets=[
+            T('addrTag', 'Address', 'to_str', ('stmts', 'tag = __ANY1__', 'if is_test_only:\n    ...', 'tag'),
+              {'is_bounceable': ('bounceable', B), 'is_test_only': ('testOnly', B)}, ['bounceable', 'testOnly'],
+              ref='(if testOnly then (if bounceable then 0x11 else 0x51) ||| 0x80 else (if bounceable then 0x11 else 0x51))',
+              grid={'bounceable': FLAG, 'testOnly': FLAG}),
+            T('b64TestOnly', 'Address', 'is_b64', ('stmts', 'tag = __ANY1__', 'if __ANY2__:\n    self.is_bounceable = True', 'self.is_test_only'),
+              {'decoded[0]': ('tag0', N), 'self.is_test_only': ('t0', B), 'self.is_bounceable': ('b0', B)}, ['tag0', 't0', 'b0'], ret='Bool',
+              ref='(t0 || (tag0 &&& 0x80) != 0)', grid={'tag0': list(range(256)), 't0': FLAG, 'b0': [False]}),
+            T('b64Bounceable', 'Address', 'is_b64', ('stmts', 'tag = __ANY1__', 'if __ANY2__:\n    self.is_bounceable = True', 'self.is_bounceable'),
+              {'decoded[0]': ('tag0', N), 'self.is_test_only': ('t0', B), 'self.is_bounceable': ('b0', B)}, ['tag0', 't0', 'b0'], ret='Bool',
+              ref='(b0 || (if (tag0 &&& 0x80) != 0 then tag0 ^^^ 0x80 else tag0) == 0x11)', grid={'tag0': list(range(256)), 't0': [False], 'b0': FLAG}),
+        ]),
 }
 
 arith.GROUPS.update(GROUPS2)
